@@ -9,7 +9,8 @@ lists, replacement fields as small codes:
 
 A field with a conversion or format spec cannot be modelled and makes the translator fail (the
 runner reports that as a broken obligation).  Also emitted: the SOAP envelope namespace and the
-`PREFIX` string `make_soap_enveloped_saml_thingy` removes, as code point lists.  Deterministic.
+`PREFIX` string (the declaration text `make_soap_enveloped_saml_thingy` used to remove everywhere; now only
+used by a regression example), as code point lists.  Deterministic.
 """
 import string
 
@@ -54,8 +55,8 @@ def generate():
         out.append("]\n")
     out.append("/-- `saml2.pack.NAMESPACE` (SOAP envelope namespace), code points -/")
     out.append("def soapNamespace : List Nat := %s\n" % _points(pack.NAMESPACE))
-    out.append("/-- `saml2.pack.PREFIX`, the declaration text removed wherever it occurs, code points -/")
-    out.append("def xmlPrefix : List Nat := %s\n" % _points(pack.PREFIX))
+    out.append("/-- `saml2.pack.PREFIX`, the declaration text (regression witness of d02e146f), code points -/")
+    out.append("def xmlPrefix : List Nat := %s\n" % _points(getattr(pack, "PREFIX", '<?xml version="1.0" encoding="UTF-8"?>')))
     out.append("end Gen.FormSpec\n")
     return {REL: "\n".join(out)}
 
